@@ -154,6 +154,8 @@ func run(t *testing.T, tape *simrt.Tape) *hx.Outcome {
 			at  time.Duration
 		}
 		var relZero []relEv // releases that brought a use count to zero
+		relInflight := map[int]int{}       // releases to zero of a layer of this image that were invoked and have not returned yet
+		relInflightKey := map[[2]int]int{} // ... per (image, layer)
 		lookupInv := map[string]uint64{}
 		faultedImage := map[int]bool{} // a lookup of this image failed while registry faults were on
 		lastFault := map[int]uint64{}  // ... and when (event sequence number)
@@ -198,8 +200,11 @@ func run(t *testing.T, tape *simrt.Tape) *hx.Outcome {
 		// looked up WITHOUT holding a use may stop working at that moment (the property promises the
 		// lookup, and protects layers with outstanding uses only)
 		overlapped := func(t *simrt.Task, ii, li int) bool {
-			if count[[2]int{ii, li}] > 0 {
-				return false
+			if count[[2]int{ii, li}]-relInflightKey[[2]int{ii, li}] > 0 {
+				return false // (uses that nobody is giving back at this moment protect the layer)
+			}
+			if relInflight[ii] > 0 {
+				return true
 			}
 			for _, r := range relZero {
 				if r.img == ii && r.seq > lookupInv[t.Label] {
@@ -280,7 +285,7 @@ func run(t *testing.T, tape *simrt.Tape) *hx.Outcome {
 							lastFault[ii] = s.Seq()
 							lastFaultAt[ii] = s.Now()
 							if calm {
-								overl := false
+								overl := relInflight[ii] > 0 // (invoked before this lookup and still running)
 								for _, r := range relZero {
 									if r.img == ii && r.seq > lookupInv[t.Label] {
 										overl = true
@@ -346,6 +351,8 @@ func run(t *testing.T, tape *simrt.Tape) *hx.Outcome {
 						}
 						if count[key] == 1 {
 							relZero = append(relZero, relEv{s.Seq(), ii, s.Now()})
+							relInflight[ii]++
+							relInflightKey[key]++
 						}
 						// (the store answers a successful release with ENOENT; releasing a use of a layer that was
 						// never resolved reports an error after doing the bookkeeping, which is not judged)
@@ -358,6 +365,8 @@ func run(t *testing.T, tape *simrt.Tape) *hx.Outcome {
 						}
 						if count[key] == 1 {
 							relZero = append(relZero, relEv{s.Seq(), ii, s.Now()})
+							relInflight[ii]--
+							relInflightKey[key]--
 						}
 						count[key]--
 						mine[key]--
@@ -380,6 +389,8 @@ func run(t *testing.T, tape *simrt.Tape) *hx.Outcome {
 						if rn, _, _ := layerNode(key[0], key[1], toc); rn != nil {
 							if count[key] == 1 {
 								relZero = append(relZero, relEv{s.Seq(), key[0], s.Now()})
+								relInflight[key[0]]++
+								relInflightKey[key]++
 							}
 							if errno := rn.(fusefs.NodeRmdirer).Rmdir(ctx, toc); errno != syscall.ENOENT && calm && nClients == 1 && strict[key] {
 								s.Fail("release-failed", "releasing a use of (img%d, layer %d) that this client holds (outstanding uses of it: %d; the layer is resolved) failed: %v", key[0], key[1], count[key], errno)
@@ -390,6 +401,8 @@ func run(t *testing.T, tape *simrt.Tape) *hx.Outcome {
 							}
 							if count[key] == 1 {
 								relZero = append(relZero, relEv{s.Seq(), key[0], s.Now()})
+								relInflight[key[0]]--
+								relInflightKey[key]--
 							}
 							count[key]--
 							if imgUses[key[0]]--; imgUses[key[0]] == 0 {
